@@ -116,6 +116,15 @@ func (c18Engine) Gen(g *Gen) {
 		}
 		emit(pick(g.Rng, outputs), ops, []string{"ctx", "module"}[g.Rng.Intn(2)])
 	}
+	// prefixes that would mean something to a formatter: a log line carries the prefix as it was pushed,
+	// through Log and through Logf alike
+	for _, pf := range []string{"a%20b.proto", "100%", "%s", "%d%%", "%!v(MISSING)"} {
+		for _, kind := range []string{"ctx", "module"} {
+			emit("out", []c18Op{{"push", toB(pf)}}, kind)
+			emit("out", []c18Op{{"push", toB(pf)}, {"push", toB("q")}}, kind)
+			emit("out", []c18Op{{"push", toB("p")}, {"pushDir", toB("x")}, {"push", toB(pf)}, {"pop", B{}}, {"popDir", B{}}}, kind)
+		}
+	}
 }
 
 // c18Depth computes the number of frames above the root after ops (mirrors only the stack
